@@ -4071,9 +4071,14 @@ class PartitionTreeBuilder:
                 seed=rng,
                 **partition_opts,
             )
+            groups = separate(leaves, membership)
+            if len(groups) == len(leaves):
+                # nothing was agglomerated - contract all remaining
+                break
+
             leaves = [
                 tree.contract_nodes(group, check=check, optimize=sub_optimize)
-                for group in separate(leaves, membership)
+                for group in groups
             ]
 
         if len(leaves) > 1:
